@@ -296,3 +296,75 @@ func c15RouteCriteriaImmutable(c *Ctx) {
 	}
 	c.Check("C15.R6", "pkg/proxy:route-criteria-not-mutated", pos, bad == nil && nCalls >= 1, fmt.Sprintf("request-path code only reads the route's criteria (mutating methods: %s)", strings.Join(names, ",")), "request-path code calls a method that rewrites the route's shared metadata match criteria in place: one request's metadata sticks to the route, later requests are matched against criteria they never carried and can be sent to hosts whose metadata do not match")
 }
+
+// c15PresentNotEmpty (R1): "the host's metadata contain the pair" means the key is present with that value.
+// Host metadata is a Go map; a plain index expression answers "" for a missing key, so `meta[k] != v` treats a host
+// without the label like a host labelled k="" - such a host joins the subset {k:""} (or a default subset with an empty
+// value) although its metadata do not contain the pair, and the two builders disagree. Clause: every lookup into a
+// host's metadata map (type api.Metadata) in the package is the comma-ok form, and the looked-up value is used only
+// where the presence flag is known to be true.
+func c15PresentNotEmpty(c *Ctx) {
+	pkg := "pkg/upstream/cluster"
+	n := 0
+	ord := ordCounter{}
+	for _, fn := range c.PkgFuncs(pkg) {
+		forEachInstr(fn, false, func(f *ssa.Function, in ssa.Instruction) {
+			lk, ok := in.(*ssa.Lookup)
+			if !ok || !strings.HasSuffix(typeName(lk.X.Type()), "api.Metadata") {
+				return
+			}
+			n++
+			key := ord.next(f, "metadata-lookup-distinguishes-missing")
+			if !lk.CommaOk {
+				c.Fail("C15.R1", key, lk.Pos(), "a host's metadata map is read with a plain index expression: a missing label reads as the empty string, so a host that lacks the label is treated as carrying label=\"\" and is put into (or served from) a subset whose pairs its metadata do not contain")
+				return
+			}
+			var val, present ssa.Value
+			for _, r := range refs(lk) {
+				if ex, isE := r.(*ssa.Extract); isE {
+					if ex.Index == 0 {
+						val = ex
+					} else {
+						present = ex
+					}
+				}
+			}
+			good, why := true, "comma-ok lookup; the value is used only where the key is present"
+			if present == nil {
+				good, why = false, "the presence flag of the lookup is discarded"
+			} else if val != nil {
+				for _, u := range refs(val) {
+					ui, isI := u.(ssa.Instruction)
+					if !isI {
+						continue
+					}
+					if _, isDbg := u.(*ssa.DebugRef); isDbg {
+						continue
+					}
+					blk := ui.Block()
+					if phi, isPhi := u.(*ssa.Phi); isPhi {
+						// a phi uses the value on the incoming edge: judge the predecessor
+						for i, e := range phi.Edges {
+							if e == val {
+								blk = phi.Block().Preds[i]
+							}
+						}
+					}
+					guarded := false
+					for _, g := range guardsAt(blk) {
+						if g.Cond == present && g.True {
+							guarded = true
+						}
+					}
+					if !guarded {
+						good, why = false, "the looked-up value is used at "+shortPos(c, ui.Pos())+" where the key may be missing"
+					}
+				}
+			}
+			c.Check("C15.R1", key, lk.Pos(), good, why, "a host's metadata lookup does not distinguish a missing label from an empty one ("+why+"): a host that lacks the label is treated as carrying label=\"\" and is put into (or served from) a subset whose pairs its metadata do not contain")
+		})
+	}
+	if n < 3 {
+		c.Unresolved("C15.R1", "lookups into api.Metadata in pkg/upstream/cluster (expected ExtractSubsetMetadata, HostMatches, initIndex)")
+	}
+}
